@@ -3,13 +3,18 @@
    instantiated with symbolic chunk files and evaluated on generated delivery
    schedules; the observable is the answer to every call.
 
-   A chunk file is a token [kind; slot]: kind 0 = the genuine file of the
-   slot, 1 = the genuine file with a flipped bit, 2 = the file of the same
-   slot of ANOTHER tree's checkpoint.  The digest function is the identity
-   (so "the digest differs" = "the bytes differ"), the decoder yields a proof
-   that recomputes to the checkpoint root for kind 0 and to another root for
-   kind 2.  A session may be started with FORGED metadata: the digest of one
-   slot is that of the foreign file (then only the proof check can refuse). *)
+   A chunk file is a token [kind; slot]:
+     0 the genuine file of the slot          (decodes, verifies)
+     1 the genuine file with a flipped bit   (snappy checksum fails: undecodable)
+     2 the file of the same slot of ANOTHER tree's checkpoint (decodes, other root)
+     3 not a snappy stream at all, with more bytes behind          (undecodable)
+     4 a valid snappy prefix, then a reserved frame, then more bytes (undecodable part-way)
+     5 valid snappy around bytes that are not CBOR                 (undecodable)
+     6 valid snappy and CBOR around entries that are no proof of the root (decodes, does not verify)
+   The digest function is the identity (so "the digest differs" = "the bytes
+   differ").  A session may be started with FORGED metadata: the digest of one
+   slot is that of a file of kind 1-6 (then only decoding / the proof check can
+   refuse, and the answer must be the aborting one, never the retryable one). *)
 From Verif Require Import Lib.Base Mkvs.Trie Ckpt.Model.
 
 Definition tok (kind slot : N) : bytes := [kind; slot].
@@ -18,17 +23,17 @@ Definition c_root : bytes := [7].
 Definition c_decode (b : bytes) : option ptree :=
   match b with
   | [0; _] => Some (PHash [7])
-  | [2; _] => Some (PHash [9])
+  | [2; _] | [6; _] => Some (PHash [9])
   | _ => None
   end.
-Definition c_digests (n : nat) (forged : option N) : list bytes :=
+Definition c_digests (n : nat) (forged : option (N * N)) : list bytes :=
   map (fun i => match forged with
-                | Some j => if N.of_nat i =? j then tok 2 j else tok 0 (N.of_nat i)
+                | Some (j, k) => if N.of_nat i =? j then tok k j else tok 0 (N.of_nat i)
                 | None => tok 0 (N.of_nat i)
                 end) (seq 0 n).
 
 Inductive cev :=
-| CStart (forged : option N)          (* StartRestore(metadata) *)
+| CStart (forged : option (N * N))    (* StartRestore(metadata); forged: (slot, kind of the file whose digest it carries) *)
 | CAbort                              (* AbortRestore *)
 | CChunk (slot kind : N)              (* RestoreChunk(slot, file) *)
 | CFinalize (right_root : bool).      (* NodeDB.Finalize *)
@@ -42,7 +47,7 @@ Definition code (r : rres) (done : bool) : N :=
   end.
 
 (* runner state: restorer state, metadata of the current session, has any chunk been imported *)
-Definition cstate := (rstate * option N * bool)%type.
+Definition cstate := (rstate * option (N * N) * bool)%type.
 
 Definition c_step (n : nat) (empty : bool) (st : cstate) (e : cev) : cstate * N :=
   let '(s, forged, imported) := st in
